@@ -1,4 +1,4 @@
-SERVED = ["C06", "C08", "C13", "C14", "C16", "C17", "C18", "C19", "C20"]
+SERVED = ["C03", "C06", "C08", "C13", "C14", "C16", "C17", "C18", "C19", "C20"]
 HOOKS = {
     "guard": "PSYCHEC_VERIF",
     "enable": "harness/Makefile compiles /repo's sources with -DPSYCHEC_VERIF into /verif/.cache/build-<flavour>/; "
@@ -130,5 +130,16 @@ CHECKS = {
         "note": "Trusted: Coq kernel incl. vm_compute; hand transcription C14Model.v; regex-based schema extraction translate/schema.py; extraction; harness (tree.h knows the 14 list instantiations). "
                 "The traversal protocol (Visit/Skip/Quit) is not modelled: visit-once is correspondence only. Print Assumptions: closed under the global context.",
         "technique": "Coq proof by mutual structural induction over arbitrary trees + reflective check of the regenerated class schema + per-node correspondence",
+    },
+    "C03": {
+        "text": "PARTIAL.  Theorem C03_expr_lossless (induction on fuel, for every token string and every operator table): the model of the parser's N-ary expression layer stores every token "
+                "it consumes exactly once and in order — printing the returned tree in order, followed by the unconsumed rest, is the input.  For the whole language (every node class through "
+                "SyntaxDumper/Unparser) the statement is checked, not proved: on every corpus input that parses without diagnostics (the repository's 1,166 test snippets in their categories, "
+                "concatenations, hand-picked list/literal/digraph forms) the token indices the dumper emits are exactly 1..n in order, the unparsed text lexes to the same (kind, spelling) "
+                "sequence, and its re-parse lists the same node kinds.  The per-class dumper-coverage theorem of the design (T2 over SyntaxDumper.h) was not built.",
+        "design_ref": "DESIGN.md section 6, C03",
+        "note": "Trusted: Coq kernel; C06Model.v (tied by C06's correspondence); the harness' recording SyntaxDumper subclass. Whole-language losslessness is correspondence over a corpus, "
+                "i.e. sampling. Print Assumptions: closed under the global context.",
+        "technique": "Coq proof (token preservation of the modelled expression parser, all inputs) + corpus-wide parse/unparse/re-lex/re-parse correspondence",
     },
 }
